@@ -174,6 +174,29 @@ def j_chanmode(ctx):
     if not changes and len(ps) == 1:
         n324 = len([l for l in ctx.written if numeric_pred(srv, 324, a, c)(l)])
         obs.append(('mode:query', 'MODE query answers 324 for a member', Iff(n324 == 1, act)))
+        # what the reply shows: every letter stands for a set mode, parameters follow in the order of the letters that take one
+        for l in [l for l in ctx.written if numeric_pred(srv, 324, a, c)(l)][:1]:
+            toks = [[]]
+            for x in l:
+                if isinstance(x, int) and x == 32: toks.append([])
+                else: toks[-1].append(x)
+            toks = [t for t in toks if t]
+            if len(toks) < 5 or not all(isinstance(x, int) for x in toks[4]): continue
+            letters = bytes(toks[4]).decode('utf-8', 'replace')
+            pc = pre.chans[c]
+            want = {'i': 'invite_only', 'm': 'moderated', 's': 'secret', 't': 'protected_topic', 'n': 'no_external_messages'}
+            for lt, fl in want.items():
+                obs.append(('mode:query-content', f'MODE query shows +{lt} exactly when it is set', Iff(lt in letters[1:], pc['flags'][fl])))
+            obs.append(('mode:query-content', 'MODE query shows +k exactly when a key is set', Iff('k' in letters[1:], opt_cond(pc['key']))))
+            obs.append(('mode:query-content', 'MODE query shows +l exactly when a limit is set', Iff('l' in letters[1:], opt_cond(pc['limit']))))
+            params = toks[5:]; i = 0
+            for lt in letters[1:]:
+                if lt == 'k':
+                    good = i < len(params) and all(isinstance(x, int) for x in params[i]) and bytes(params[i]).decode('utf-8', 'replace') == w.spec.keys[c]
+                    obs.append(('mode:query-content', 'MODE query: the parameter belonging to +k is the key', good)); i += 1
+                elif lt == 'l':
+                    good = i < len(params) and all((not isinstance(x, int)) or 48 <= x <= 57 for x in params[i])
+                    obs.append(('mode:query-content', 'MODE query: the parameter belonging to +l is the limit (a number)', good)); i += 1
     def allow(k):
         if k[0] in ('flag', 'haskey', 'haslimit', 'ban', 'exc', 'invex') and k[1] == c: return True
         if k[0] == 'rank' and k[2] == c: return True
